@@ -216,7 +216,8 @@ def run_history(case, d, want_regen=True):
                 ref = newref
         elif k == 'truncate':
             idx = op['index']
-            idxv = {'float': float(idx), 'npint': np.int64(idx), 'str': str(idx)}.get(op.get('nonint'), idx)
+            idxv = {'float': lambda: float(idx), 'npint': lambda: np.int64(idx), 'npint16': lambda: np.int16(idx),
+                    'npuint8': lambda: np.uint8(idx), 'str': lambda: str(idx)}.get(op.get('nonint'), lambda: idx)()
             if op.get('bypath'):
                 res = call(lambda: darr.truncate_raggedarray(path, idxv))
             else:
